@@ -36,7 +36,7 @@ REQUIRED_MONITORS = ["increasing", "inside_limits", "inside_support", "weights_f
 REQUIRED_BUCKETS = {
     "quick": ["type:gaussian", "type:lognormal", "type:schulz", "type:boltzmann", "type:uniform",
               "type:rectangle", "cut:none", "cut:lower", "cut:upper", "cut:both", "relative", "absolute",
-              "degenerate:zero_width", "degenerate:npts<2", "layer:get_mesh", "layer:sasview", "layer:shared-name-sequence", "layer:set_dispersion-shared-object",
+              "degenerate:zero_width", "degenerate:npts<2", "layer:get_mesh", "layer:sasview", "layer:shared-name-sequence", "layer:set_dispersion-shared-object", "layer:one-setting-changed-sequence",
               "partype:volume", "partype:orientation"],
 }
 REQUIRED_BUCKETS["thorough"] = REQUIRED_BUCKETS["quick"]
@@ -401,6 +401,41 @@ def run_layer(case, rec):
                    "points": pts})
         rec.bucket("layer:sasview")
         rec.set_shape((name, p.name, "sasview"), True)
+    # --- consecutive requests for one parameter that differ in exactly one setting: each must be get_weights of
+    # *its* settings (nothing remembered from the request before)
+    seqp = [p for p in info.parameters.call_parameters if p.polydisperse and p.relative_pd and np.isfinite(p.default)
+            and p.default > 0 and p.limits[0] <= 0 and not np.isfinite(p.limits[1])][:2]
+    for p in seqp:
+        v0 = float(p.default)
+        cur = {"type": "gaussian", "n": 9, "width": 0.12, "nsig": 2.0, "value": v0}
+        steps = [{}, {"nsig": 3.0}, {"n": 10}, {"width": 0.2}, {"type": "lognormal"}, {"value": v0*1.25}, {"nsig": 2.0},
+                 {"type": "gaussian"}, {"nsig": 2.5}, {"width": 0.12}]
+        mm = Model()
+        for st_ in steps:
+            cur.update(st_)
+            pars = {p.name: cur["value"], p.name + "_pd": cur["width"], p.name + "_pd_n": cur["n"],
+                    p.name + "_pd_nsigma": cur["nsig"], p.name + "_pd_type": cur["type"]}
+            mm.setParam(p.name, cur["value"])
+            for attr, val in ((".width", cur["width"]), (".npts", cur["n"]), (".nsigmas", cur["nsig"]), (".type", cur["type"])):
+                mm.setParam(p.name + attr, val)
+            _state["current"] = rec
+            try:
+                mesh = direct_model.get_mesh(info, pars, dim="1d")
+                _, pts2, wts2 = mm._get_weights(p)
+                exp_v, exp_w = weights.get_weights(cur["type"], cur["n"], cur["width"], cur["nsig"], cur["value"],
+                                                   p.limits, True)
+            finally:
+                _state["current"] = None
+            idx = [q.name for q in info.parameters.call_parameters].index(p.name)
+            _, pts, wts = mesh[idx]
+            for via, a, b in (("get_mesh", pts, wts), ("SasviewModel", pts2, wts2)):
+                ok = np.array_equal(np.asarray(a), exp_v) and np.array_equal(np.asarray(b), exp_w)
+                rec.check("mesh_is_get_weights_for_this_parameter", ok,
+                          None if ok else {"model": name, "parameter": p.name, "via": via + " after a request differing in " +
+                                           (", ".join(st_) or "nothing"), "settings": dict(cur),
+                                           "points": np.asarray(a)[:6], "expected_points": exp_v[:6],
+                                           "npoints": [len(a), len(exp_v)]})
+        rec.bucket("layer:one-setting-changed-sequence")
     # --- one disperser object handed to set_dispersion for several parameters / instances, then one of them edited
     pdp = [p for p in info.parameters.call_parameters if p.polydisperse and p.relative_pd
            and np.isfinite(p.default) and p.default > 0 and p.limits[0] <= 0 and not np.isfinite(p.limits[1])]
